@@ -5,6 +5,7 @@
 From Coq Require Import List NArith Bool Arith Lia.
 Import ListNotations.
 From JV Require Import Model.Imp Spec.ImpSpec Proofs.ImpProofs.
+From JV Require Lib.PyImp.
 
 (* include: `template.new_context(context.get_all(), True, {locals})` makes exactly the current
    locals (innermost first), then the current context's own variables, then its parent visible —
@@ -85,6 +86,28 @@ Theorem C05_select_first_existing : forall (ts : tset) (names : list target),
   select_template ts names = first_existing ts names.
 Proof. intros. exact (select_first ts names). Qed.
 Print Assumptions C05_select_first_existing.
+
+(* translator tie, model side: what the current source of runtime.new_context computes (the
+   reference result the regenerated file Gen_imp proves the source equal to) makes the same
+   variables visible as Model.Imp.new_context and agrees on all other fields; what
+   Template._get_default_module(ctx) computes is Model.Imp.import_ctx *)
+Theorem C05_new_context_is_source : forall vars shared g (locals : PyImp.locals_t),
+  NoDup (map fst locals) ->
+  let c := PyImp.new_context_ref vars shared (Some g) (Some locals) in
+  let m := Imp.new_context vars shared g (PyImp.nonmissing locals) in
+  (forall x, dget x (c_parent c) = dget x (c_parent m)) /\
+  c_vars c = c_vars m /\ c_exported c = c_exported m /\ c_gkeys c = c_gkeys m /\ c_globals c = c_globals m.
+Proof. intros vars shared g locals H. exact (PyImp.new_context_ref_model vars shared g locals H). Qed.
+Print Assumptions C05_new_context_is_source.
+
+Theorem C05_default_module_is_source : forall g c,
+  match PyImp.gdm_ref g false (Some c) None with
+  | PyImp.GModule m _ => option_map Ok (PyImp.ctx_of_mod g m) = Some (import_ctx c g)
+  | PyImp.GKeyError => import_ctx c g = Err EKey
+  | PyImp.GRuntimeError => False
+  end.
+Proof. intros g c. exact (PyImp.gdm_ref_model g c). Qed.
+Print Assumptions C05_default_module_is_source.
 
 (* non-vacuity: main (global mg) sets a, loops over i and includes t1 with and without context,
    imports t1; t1 exports b and f1 but neither _p nor the imported name *)
